@@ -72,11 +72,19 @@ def path_class(ctx, q, v):
             return 'parent(%s)' % path_class(ctx, q, tb[4])
     if t[0] == 'sym' and t[1] == 'mut':
         return path_class(ctx, q, t[2])
+    if t[0] == 'sym' and t[1] == 'app' and t[2] == 'std::path::Path::parent' and len(t) > 4:
+        return 'parent(%s)' % path_class(ctx, q, t[4])
+    if tb[0] == 'sym' and tb[1] == 'app' and (tb[2].endswith('Iterator>::next') or tb[2] == 'std::iter::Iterator::next') and len(tb) > 4:
+        it = obj_root(tb[4])
+        ti = VAL[it]
+        if ti[0] == 'sym' and ti[1] == 'app' and prims.classify(ti[2])[0] == 'list_dir' and len(ti) > 4:
+            return 'Entry(%s)' % path_class(ctx, q, ti[4])
     d, leaf = T.split_path(v)
     if leaf is not None:
         dt = T.tags(d)
         lt = T.tags(leaf)
-        dk = 'Base' if 'BaseDir' in dt and 'TempDir' not in dt else 'Temp' if 'TempDir' in dt else 'Dir?'
+        dk = 'Base' if 'BaseDir' in dt and 'TempDir' not in dt else 'Temp' if 'TempDir' in dt else \
+            'Value' if is_path_param(ctx, q, d) else 'Dir?'
         # the directory part must be exactly an accessor result (no further pushes hidden in it)
         dd, dleaf = T.split_path(d)
         if dleaf is not None:
